@@ -20,6 +20,8 @@ import numpy as np
 import z3
 
 F0 = Fraction(0)
+THRESH_CONSTS = (1e-10, 1e-8, 1e-6)
+NORMALISE_DIV = True
 F1 = Fraction(1)
 _FLOAT_CACHE: dict = {}
 
@@ -897,23 +899,32 @@ def _cmp0(p: Poly, op) -> SBool:
 
 
 def _lead(p: Poly):
-    k = min(p.t.keys(), key=lambda m: (len(m), m))
-    return p.t[k]
+    """canonical scale of a polynomial: its coefficient of largest magnitude (first such monomial); proportional polynomials get
+    proportional scales, and the normalised polynomial has coefficients of magnitude <= 1"""
+    best = None
+    for m in sorted(p.t.keys(), key=lambda m: (len(m), m)):
+        c = p.t[m]
+        if best is None or abs(c) > abs(best):
+            best = c
+    return best
 
 
 def _div(n: Poly, d: Poly) -> Poly:
-    """n / d with numerator and denominator normalised to leading coefficient 1, so that quotients that differ only by a
-    constant factor share one definitional atom"""
+    """n / d.  Quotients that differ from an earlier one only by constant factors of numerator / denominator re-use its
+    definitional atom (scaled), so that e.g. (-q a)/p and (w q a)/p are recognised as multiples of each other"""
     if not n.t:
         return ZERO
     cn, cd = _lead(n), _lead(d)
-    if cn != 1:
-        n = n.scale(1 / cn)
-    if cd != 1:
-        d = d.scale(1 / cd)
+    key = (pkey(n.scale(1 / cn)), pkey(d.scale(1 / cd)))
+    hit = CTX.div_canon.get(key)
+    if hit is not None:
+        q0, cn0, cd0 = hit
+        f = (cn / cn0) / (cd / cd0)
+        return q0 if f == 1 else q0.scale(f)
     q = CTX.def_div(n, d)
-    f = cn / cd
-    return q if f == 1 else q.scale(f)
+    if len(q.t) == 1 and () not in q.t:
+        CTX.div_canon[key] = (q, cn, cd)
+    return q
 
 
 def _floordivmod(a: Sym, b: Sym):
@@ -952,9 +963,12 @@ def div_parts(x):
     if x.im.t or len(x.re.t) != 1:
         return None
     (m, c), = x.re.t.items()
-    if len(m) != 1 or c != 1:
+    if len(m) != 1:
         return None
-    return CTX.div_info.get(m[0])
+    nd_ = CTX.div_info.get(m[0])
+    if nd_ is None:
+        return None
+    return (nd_[0].scale(c), nd_[1]) if c != 1 else nd_
 
 
 def sym_real(name, lo=None, hi=None) -> Sym:
@@ -1030,7 +1044,7 @@ class Ctx:
         self.pending = []
         self.assume = []       # list[SBool] harness assumptions
         self.feas = None       # z3 solver for branch feasibility (relaxed)
-        self.branch_timeout_ms = 2000
+        self.branch_timeout_ms = 10000
         self.stats = {"branch_queries": 0, "branch_time": 0.0, "branch_unknown": 0}
         self.active = False
         self.max_int_values = 64
@@ -1047,6 +1061,7 @@ class Ctx:
         self.uf_apps = []      # (name, args tuple z3, result atom) for reporting
         self.stub_log = []
         self.lemmas = []
+        self.div_canon = {}
         self.uf_defs = set()
         self.div_info = {}
         self.memo = {}         # structural hash-consing of definitional atoms (per path)
@@ -1172,7 +1187,7 @@ class Ctx:
                             z3.Implies(z3.And(dz_ > 0, nz_ <= dz_), qz_ <= 1), z3.Implies(z3.And(dz_ > 0, nz_ >= dz_), qz_ >= 1),
                             z3.Implies(z3.And(dz_ > 0, nz_ >= -dz_), qz_ >= -1), z3.Implies(nz_ == dz_, qz_ == 1)))
         # threshold facts for the clipping constants that numeric code compares quotients with (valid for any constant c)
-        for c_ in (1e-10, 1e-8, 1e-6):
+        for c_ in THRESH_CONSTS:
             cz_ = _rv(frac(c_))
             self.add_def(z3.And(z3.Implies(z3.And(dz_ > 0, nz_ >= cz_ * dz_), qz_ >= cz_),
                                 z3.Implies(z3.And(dz_ > 0, nz_ <= cz_ * dz_), qz_ <= cz_)))
